@@ -358,6 +358,25 @@ def check_world(prop, tier, seed, replay=None):
     if prop == 'C17' and not replay:
         threaded, thr_viol = threaded_tracer(prop, tier, seed)
         violations.extend(thr_viol)
+    # 6e. C17: tracer lifetimes that begin or end inside a call (harness/tracerlife)
+    tracerlife = None
+    if prop == 'C17' and not replay:
+        try:
+            tx = vlib.build_simple_harness('tracerlife', std='c++17')
+            out_tl, errs_tl = vlib.run_noinput(tx)
+            lines_tl = [l for l in out_tl if l.startswith(('PASS', 'FAIL', 'DONE'))]
+            bad_tl = [l for l in lines_tl if l.startswith('FAIL')]
+            tracerlife = dict(cases=len([l for l in lines_tl if l.startswith(('PASS', 'FAIL'))]), failed=len(bad_tl))
+            if bad_tl or errs_tl or not any(l.startswith('DONE') for l in lines_tl):
+                path = vlib.write_replay(prop, tier, seed, 'tracerlife',
+                                         ['verdict violation', 'a tracer whose lifetime begins or ends inside a call: the record does not go to the most recently constructed live tracer',
+                                          'reproduce: g++ -std=c++17 -fsanitize=address,undefined -I/repo/include /verif/harness/tracerlife/h_tracerlife.cpp && ./a.out'],
+                                         (bad_tl or lines_tl[-5:]) + ([errs_tl[0][1][:1500]] if errs_tl else []))
+                violations.append((path, False))
+        except vlib.BuildError as e:
+            path = vlib.write_replay(prop, tier, seed, 'tracerlife-build', ['verdict violation', 'harness/tracerlife/h_tracerlife.cpp no longer compiles against /repo'],
+                                     str(e).split('\n')[-30:])
+            violations.append((path, False))
     # 7. evidence
     wall = time.time() - t0
     # a broken tie for which a concrete failing input was found is reported with that input only
@@ -383,7 +402,7 @@ def check_world(prop, tier, seed, replay=None):
              % (cfg['enums'], cfg['profiles']),
         samples=['\n'.join(scripts[i][2]) for i in ([0, len(scripts) // 2, len(scripts) - 1] if scripts else [])],
         exhaustive=False,
-        generator_mix=dict(gen_stats), outcome_histogram=dict(hist), notes=notes, spelling_family=spelling, return_identity_family=retref, ring_correspondence=ring, threaded_tracer=threaded,
+        generator_mix=dict(gen_stats), outcome_histogram=dict(hist), notes=notes, spelling_family=spelling, return_identity_family=retref, ring_correspondence=ring, threaded_tracer=threaded, tracer_lifetime_family=tracerlife,
         harness_tree=vlib.repo_hash(),
     )
     vlib.write_evidence(prop, tier, seed, 'proof', cov,
